@@ -20,7 +20,8 @@ out = []
 for run in req['runs']:
     d = tempfile.mkdtemp(prefix='mosverif-cli-')
     try:
-        for name, content in run['files'].items():
+        # bystanders: files that sit in the directory but are not named on the command line
+        for name, content in list(run.get('bystanders', {}).items()) + list(run['files'].items()):
             p = os.path.join(d, name)
             if content == '<dir>':
                 os.mkdir(p)
